@@ -25,7 +25,8 @@ PROPERTY = 'C20'
 RULE = ('histories over all DefaultHandler callbacks (write_keepalive on/off) with rotation thresholds forcing 0..k '
         'rotations, restart after any event, crash inside the last write at a generated (exhaustive tier: every) byte '
         'offset followed by restart, then further events and an audit of all files. Non-trivial = >= 1 rotation and >= 1 '
-        'restart, or a torn write; distinct by history.')
+        'restart, or a torn write; distinct by history. Peer address spelled as IPv4, lower-case and upper-case IPv6; update '
+        'payloads synthetic and as decoded by yabgp from one well-formed UPDATE per address family.')
 ASSUMPTIONS = ['update payloads are synthetic JSON-safe ones plus what yabgp itself decodes from one well-formed UPDATE per address '
                'family (octet-string results only where stdlib json and simplejson both refuse them)',
                'torn-write model: a prefix of the bytes of the last append survives (append-only file, no reordering)',
@@ -34,6 +35,9 @@ ASSUMPTIONS = ['update payloads are synthetic JSON-safe ones plus what yabgp its
 EXHAUSTIVE = {'quick': False, 'thorough': False}
 CONF = cfg.CONF
 PEER = '10.0.0.2'
+# the configured peer address as the operator wrote it (oslo keeps the spelling); the handler's tables are keyed by its
+# lower-case form
+PEERS = ['10.0.0.2', '2001:db8::7', '2001:DB8::7', 'FE80::A']
 
 
 class Clock(object):
@@ -50,13 +54,13 @@ class Clock(object):
 
 
 class FakeFactory(object):
-    peer_addr = PEER
+    def __init__(self, addr):
+        self.peer_addr = addr
 
 
 class FakePeer(object):
-    factory = FakeFactory()
-
-    def __init__(self):
+    def __init__(self, addr=PEER):
+        self.factory = FakeFactory(addr)
         self.msg_recv_stat = {'Keepalives': 1}
 
 
@@ -132,7 +136,8 @@ EVENTS = ['update_received', 'on_update_error', 'keepalive_received', 'open_rece
 
 
 class Run(object):
-    def __init__(self, max_size, write_keepalive):
+    def __init__(self, max_size, write_keepalive, peer=PEER):
+        self.addr = peer
         self.dir = tempfile.mkdtemp(prefix='verif-c20-')
         self.clock = Clock()
         dh.time = self.clock
@@ -140,19 +145,20 @@ class Run(object):
         CONF.set_override('write_dir', self.dir, group='message')
         CONF.set_override('write_keepalive', bool(write_keepalive), group='message')
         CONF.set_override('write_msg_max_size', max_size, group='message')     # bytes (the agent multiplies MB itself)
-        CONF.bgp.running_config = {'remote_addr': PEER}
+        CONF.bgp.running_config = {'remote_addr': peer}
         self.write_keepalive = write_keepalive
-        self.peer = FakePeer()
+        self.peer = FakePeer(peer)
         self.h = None
         self.expected = 0        # complete records that must be on disk
         self.torn = []           # (file, surviving prefix bytes, full record bytes)
         self.failures = []
+        self.dead = False
         self.rotations = 0
         self.restarts = 0
         self.start()
 
     def path(self):
-        return os.path.join(self.dir, PEER, 'msg')
+        return os.path.join(self.dir, self.addr.lower(), 'msg')
 
     def files(self):
         p = self.path()
@@ -180,9 +186,25 @@ class Run(object):
         """-> (bytes appended to the newest file before rotation, file name) or None if nothing is logged"""
         h, p = self.h, self.peer
         nfiles = len(self.files())
-        cur = self.h.peer_files[PEER][1].name
+        cur = self.h.peer_files[self.addr.lower()][1].name
         before = os.path.getsize(cur)
         t = self.clock.time()
+        try:
+            self._callback(kind, payload, h, p, t)
+        except Exception as e:  # noqa - a callback that raises has not logged its event
+            from vlib.util import exc_sig
+            self.failures.append(('callback-raises:%s' % exc_sig(e), '%s raised %r (files %r)' % (kind, e, self.files())))
+            self.dead = True       # the history ends here
+            return None
+        logged = not (kind == 'on_established' or (kind == 'keepalive_received' and not self.write_keepalive))
+        if logged:
+            self.expected += 1
+        if len(self.files()) > nfiles:
+            self.rotations += 1
+        after = os.path.getsize(cur)
+        return (cur, before, after) if logged else None
+
+    def _callback(self, kind, payload, h, p, t):
         if kind == 'update_received':
             h.update_received(p, t, payload)
         elif kind == 'on_update_error':
@@ -200,16 +222,9 @@ class Run(object):
         elif kind == 'on_connection_lost':
             h.on_connection_lost(p)
         elif kind == 'on_connection_failed':
-            h.on_connection_failed(PEER, payload)
+            h.on_connection_failed(self.addr, payload)
         elif kind == 'on_established':
-            h.on_established(PEER, t)
-        logged = not (kind == 'on_established' or (kind == 'keepalive_received' and not self.write_keepalive))
-        if logged:
-            self.expected += 1
-        if len(self.files()) > nfiles:
-            self.rotations += 1
-        after = os.path.getsize(cur)
-        return (cur, before, after) if logged else None
+            h.on_established(self.addr, t)
 
     def tear(self, span, k):
         """crash in the middle of the last write: only the first k bytes of the record reached the disk"""
@@ -292,10 +307,10 @@ class Run(object):
 
 
 def run_case(case):
-    run = Run(case['max_size'], case['write_keepalive'])
+    run = Run(case['max_size'], case['write_keepalive'], PEERS[case.get('peer', 0) % len(PEERS)])
     try:
         for op in case['ops']:
-            if run.h is None:
+            if run.h is None or run.dead:
                 break
             if op[0] == 'ev':
                 run.event(EVENTS[op[1]], payload_for(EVENTS[op[1]], op[2]))
@@ -320,6 +335,7 @@ ev_op = st.tuples(st.just('ev'), st.sampled_from([0, 0, 0, 1, 2, 3, 4, 5, 6, 7, 
 op = st.one_of(ev_op, ev_op, ev_op, st.just(['restart']),
                st.tuples(st.just('torn'), st.sampled_from([0, 0, 1, 3, 6, 7]), st.integers(0, 7), st.integers(0, 400)).map(list))
 case_strategy = st.fixed_dictionaries({'max_size': st.sampled_from([150, 400, 1000, 10 ** 9]), 'write_keepalive': st.booleans(),
+                                       'peer': st.sampled_from([0, 0, 1, 2, 3]),
                                        'ops': st.lists(op, min_size=1, max_size=30)})
 
 
